@@ -500,6 +500,12 @@ def _impurities(f: FuncInfo) -> List[str]:
             d = dotted_name(x.func) or ''
             if d in ('open', 'print') or d.endswith('.write'):
                 out.append(f'I/O {d}')
+            # reads of the outside world that the cache key does not cover: a file is identified by its name, not by its content
+            last = d.split('.')[-1]
+            if last in ('read_csv', 'read_excel', 'read_json', 'loadtxt', 'genfromtxt', 'load', 'read_text', 'read_bytes', 'readlines', 'exists',
+                        'getmtime', 'listdir', 'glob', 'getenv', 'environ', 'now', 'time', 'getcwd') and d.split('.')[0] in (
+                    'pd', 'pandas', 'np', 'numpy', 'os', 'Path', 'pathlib', 'json', 'pickle', 'datetime', 'time', 'glob', 'f', 'file', 'fh'):
+                out.append(f'reads {d}')
     return out
 
 
@@ -853,7 +859,36 @@ def _attr_deps(cls, attr: str, seen: Set[str]) -> Set[str]:
     return out or {attr}
 
 
+# =========================================================================================== P7
+def check_p7(ctx) -> None:
+    """Relative names in the input (bundled profiles, demand files) are resolved against the package directory, which main() enters
+    first.  Until the last step of the pipeline has run, the working directory must stay there: a chdir in between makes what a
+    relative data file resolves to - and so the result - depend on where the caller happened to be."""
+    repo = ctx.repo
+    for suffix, fname in (('geophires_x/GEOPHIRESv3.py', 'main'), ('hip_ra_x/hip_ra_x.py', 'main')):
+        if not repo.has_module(suffix):
+            continue
+        f = repo.function(suffix, fname)
+        chd = sorted([c for c in calls_in(f.node) if dotted_name(c.func) == 'os.chdir'], key=lambda c: c.lineno)
+        steps = [c for c in calls_in(f.node) if isinstance(c.func, ast.Attribute) and c.func.attr in ('read_parameters', 'Calculate', 'PrintOutputs')]
+        key = f'{f.qualname}@{suffix.split("/")[0]}/cwd-stays-in-package-dir-during-the-run'
+        if not chd:
+            ctx.ok('P7', key, f.where, 'main() does not change the working directory')
+            continue
+        ctx.require(steps, f'{suffix}:{fname}: pipeline steps not found (idiom changed)')
+        first_step, last_step = min(c.lineno for c in steps), max(c.lineno for c in steps)
+        first = chd[0]
+        ok_first = first.lineno < first_step and '__file__' in norm(first.args[0]) if first.args else False
+        inside = [c for c in chd[1:] if c.lineno <= last_step]
+        ctx.check(ok_first and not inside, 'P7', key, f'{f.module.rel}:{(inside[0] if inside else first).lineno}',
+                  (f'`{norm(inside[0])}` changes the working directory before the last pipeline step (line {last_step}): relative data files '
+                   f'named in the input are opened during the calculation and now resolve against the caller\'s directory'
+                   if inside else f'the first chdir `{norm(first)}` does not enter the package directory before the parameters are read'),
+                  fact='one chdir into the package directory before read_parameters, none until the report is written')
+
+
 def run(ctx) -> None:
+    ctx.rule('P7', 'main() enters the package directory before reading parameters and does not leave it before the last pipeline step')
     ctx.rule('P1', 'every library wrapper / __main__ from which os.chdir or a sys.argv store is reachable in-process stashes '
                    'the state first and restores it in a finally that covers every mutating site')
     ctx.rule('P2', 'inventory of process-wide mutable state (globals, class-level mutables, foreign-module writes, memoisation) '
@@ -867,6 +902,9 @@ def run(ctx) -> None:
     check_p3(ctx)
     check_p4(ctx)
     check_p5(ctx)
+    from rules.client_common import check_any_client_cache
+    check_any_client_cache(ctx, 'P5')
+    check_p7(ctx)
     ctx.undecided('bit-identical floating-point results across run histories', 'pint/CoolProp internal caches',
                   'hash-seed effects inside third-party libraries')
     ctx.assume('a callable handed to ProcessPoolExecutor runs in another process (its cwd/argv changes do not reach the caller)')
